@@ -20,9 +20,16 @@ regular `cutadapt.runners` (real processes) stays untouched.  `run_sim` temporar
 the copy, patches `multiprocessing.connection.wait` / `multiprocessing.active_children` (looked up at call time), replaces
 `sys.stdin` by an object without file descriptor and restores everything afterwards.
 
-Granularity: `fine=True` every primitive is a scheduling point; `fine=False` (coarse) operations that never block and
-only *add* behaviours for the others when done early (send, send_bytes, put, start) are performed without giving up
-control: far fewer schedules, same set of reachable results (used for systematic exploration).
+Granularity (`fine` parameter):
+  True    every primitive is a scheduling point and every scheduling point with >= 2 enabled processes is a choice;
+  False   (coarse) operations that never block (send, send_bytes, put, start) are performed without giving up control;
+  "por"   partial-order reduction for systematic exploration: an enabled operation that commutes with everything the other
+          processes can do before it is performed at once, without a choice: the first instruction of a process, `join`,
+          `recv`/`recv_bytes`/`get` (single consumer; producers only append), and `send`/`send_bytes` unless the pipe is
+          empty and read by the main process (which uses `wait`: the send races with it).  Choices remain between
+          `Queue.put`s, sends that make a connection of the main process ready, and `wait` (incl. the subset it returns),
+          i.e. one representative per class of equivalent interleavings (plus some redundancy: no sleep sets).
+          Assumption checked at run time (`por_violations`): only the main process calls `wait`.
 """
 import collections
 import importlib.util
@@ -171,6 +178,7 @@ class Task:
         self.killed = False
         self.deadlocked = False
         self.pred = None          # enabledness of the announced operation (None = always enabled)
+        self.eager = True         # "por": the announced operation commutes with everything others can do (bool or callable)
         self.what = "begin"
         self.exc = None
         self.thread = None
@@ -200,6 +208,8 @@ class Sim:
     def __init__(self, chooser, fine=True, max_steps=200000):
         self.chooser = chooser
         self.fine = fine
+        self.mode = "fine" if fine is True else "coarse" if fine is False else str(fine)
+        self.por_violations = []
         self.max_steps = max_steps
         self.tasks = []
         self.by_thread = {}
@@ -229,17 +239,18 @@ class Sim:
         return len(self.objects) - 1
 
     # -- scheduling
-    def sync(self, pred=None, what="op", force=False):
+    def sync(self, pred=None, what="op", force=False, eager=False):
         """Scheduling point of the current task: returns when this task has been chosen to perform the announced operation."""
         me = self.cur()
         if me is None:
             raise RuntimeError("fake multiprocessing primitive used from a foreign thread")
         if me.killed:
             raise Killed()
-        if not self.fine and pred is None and not force:
+        if self.mode == "coarse" and pred is None and not force:
             return
         me.pred = pred
         me.what = what
+        me.eager = eager
         self._dispatch(me)
         me.pred = None
 
@@ -256,6 +267,8 @@ class Sim:
             nxt.deadlocked = True
         elif len(en) == 1:
             nxt = en[0]
+        elif self.mode == "por" and self._eager(en, me) is not None:
+            nxt = self._eager(en, me)
         else:
             nxt = en[self.chooser.choose(len(en), "sched", [f"{t.name}:{t.what}" for t in en])]
         if nxt is not me:
@@ -268,6 +281,13 @@ class Sim:
         if me.deadlocked:
             me.deadlocked = False
             raise (StepLimit if self.deadlock == ["step limit"] else Deadlock)(self.deadlock)
+
+    @staticmethod
+    def _eager(en, me):
+        for t in ([me] if me in en else []) + en:
+            if t.eager is True or (t.eager is not False and t.eager()):
+                return t
+        return None
 
     def spawn(self, name, fn):
         t = Task(self, name, fn)
@@ -320,6 +340,7 @@ def _describe(obj):
 class _Pipe:
     def __init__(self, sim):
         self.buf = collections.deque()
+        self.child_reader = False   # the read end was handed to a child process (children only recv, never wait)
         self.label = f"pipe{sum(1 for o in sim.objects if isinstance(o, Conn)) // 2}"
 
 
@@ -344,7 +365,7 @@ class Conn:
         if not self.writable:
             raise OSError("connection is read-only")
         data = pickle.dumps(obj)   # like the real thing: pickled by the sender, at send time
-        sim.sync(None, f"send {self.label}")
+        sim.sync(None, f"send {self.label}", eager=self._send_commutes)
         self._pipe.buf.append(("obj", data))
         sim.log("send", self._pipe, _describe(obj))
 
@@ -353,15 +374,18 @@ class Conn:
         if not self.writable:
             raise OSError("connection is read-only")
         b = bytes(memoryview(buf))[offset:(None if size is None else offset + size)]
-        sim.sync(None, f"send_bytes {self.label}")
+        sim.sync(None, f"send_bytes {self.label}", eager=self._send_commutes)
         self._pipe.buf.append(("bytes", b))
         sim.log("send_bytes", self._pipe, b)
+
+    def _send_commutes(self):
+        return bool(self._pipe.buf) or self._pipe.child_reader
 
     def _take(self, kind, prim):
         sim = _sim()
         if not self.readable:
             raise OSError("connection is write-only")
-        sim.sync(lambda: bool(self._pipe.buf), f"{prim} {self.label}", force=True)
+        sim.sync(lambda: bool(self._pipe.buf), f"{prim} {self.label}", force=True, eager=True)
         k, v = self._pipe.buf.popleft()
         if k != kind:
             sim.protocol_errors.append(f"{prim} on {self.label} but the next message was sent with {'send' if k == 'obj' else 'send_bytes'}")
@@ -412,7 +436,7 @@ class Queue:
 
     def get(self, block=True, timeout=None):
         sim = _sim()
-        sim.sync(lambda: bool(self.q), "get", force=True)
+        sim.sync(lambda: bool(self.q), "get", force=True, eager=True)
         x = pickle.loads(self.q.popleft())
         sim.log("get", self, _describe(x))
         return x
@@ -465,18 +489,22 @@ class Process:
                 _label(c, f"in{i}")
         else:
             name = f"proc{len(sim.tasks)}"
+        for v in d.values():
+            for c in (v if isinstance(v, (list, tuple)) else [v]):
+                if isinstance(c, Conn) and c.readable:
+                    c._pipe.child_reader = True
         if any(t.name == name for t in sim.tasks):
             name += f"#{len(sim.tasks)}"
         self._task = sim.spawn(name, clone.run)
         sim.log("start", None, name)
-        sim.sync(None, "started")
+        sim.sync(None, "started", eager=True)
 
     def join(self, timeout=None):
         sim = _sim()
         t = self._task
         if t is None:
             raise AssertionError("can only join a started process")
-        sim.sync(lambda: t.done, f"join {t.name}", force=True)
+        sim.sync(lambda: t.done, f"join {t.name}", force=True, eager=True)
         sim.log("join", None, t.name)
 
     def terminate(self):
@@ -529,6 +557,8 @@ def wait(object_list, timeout=None):
     """`multiprocessing.connection.wait`: any non-empty subset of the ready connections, in any order"""
     sim = _sim()
     conns = list(object_list)
+    if sim.cur() is not sim.main or any(c._pipe.child_reader for c in conns):
+        sim.por_violations.append(f"wait called by {sim.cur().name} on {[c.label for c in conns]}")
     sim.sync(lambda: any(c.ready() for c in conns), "wait", force=True)
     ready = [c for c in conns if c.ready()]
     if len(ready) > 1:
@@ -621,6 +651,7 @@ class SimResult:
         self.task_errors = []
         self.protocol_errors = []
         self.leaked_threads = []
+        self.por_violations = []
         self.steps = 0
 
 
@@ -670,6 +701,7 @@ def run_sim(argv, inputs, cores, chooser, fine=True, want_json=False, max_steps=
     out.opened = sim.opened
     out.task_errors = sim.task_errors
     out.protocol_errors = sim.protocol_errors
+    out.por_violations = sim.por_violations
     out.steps = sim.steps
     return out
 
@@ -707,10 +739,10 @@ def _selftest():
     print(f"200 random schedules: outputs equal the single-core run; {len(seen)} distinct event logs; {time.time() - t0:.1f}s; "
           f"threads alive: {threading.active_count()}")
     n = 0
-    for ch, r in dfs(lambda ch: run_sim(argv, inputs, 2, ch, fine=False), budget_s=5):
-        assert r.files == base.files and r.status == 0
+    for ch, r in dfs(lambda ch: run_sim(argv, inputs, 2, ch, fine="por"), budget_s=5):
+        assert r.files == base.files and r.status == 0 and not r.por_violations
         n += 1
-    print(f"dfs (coarse, 5 s): {n} schedules, exhausted={dfs.state['exhausted']}")
+    print(f"dfs (partial-order reduction, 5 s): {n} schedules, exhausted={dfs.state['exhausted']}")
     bad = {"in.fastq": inputs["in.fastq"][:-20]}
     r = run_sim(argv, bad, 2, RandomChooser(1))
     print("truncated input: status", r.status, "deadlock", r.deadlock, "| stderr:", r.stderr.strip().splitlines()[-1][:100])
